@@ -146,6 +146,17 @@ class SymMap:
         self.size = None
 
 
+class UUIDStr:
+    """the canonical string form of a uuid (kept symbolic as the uuid's integer value: no string theory needed)"""
+    __slots__ = ('v',)
+
+    def __init__(self, v):
+        self.v = v
+
+    def __repr__(self):
+        return 'UUIDStr(%s)' % (self.v,)
+
+
 class Iface:
     __slots__ = ('t', 'v')
 
@@ -908,6 +919,8 @@ class Exec:
     def length(self, a):
         if isinstance(a, Slice):
             return a.len
+        if isinstance(a, UUIDStr):
+            return 36
         if isinstance(a, str):
             return len(a.encode('utf-8'))
         if isinstance(a, MapObj):
@@ -965,6 +978,14 @@ class Exec:
             if isinstance(o, Opaque) and getattr(o, 'nilc', None) is not None:
                 return o.nilc
             return False
+        if isinstance(a, UUIDStr) or isinstance(b, UUIDStr):
+            if isinstance(a, UUIDStr) and isinstance(b, UUIDStr):
+                return self.eq(a.v, b.v)
+            o = b if isinstance(a, UUIDStr) else a
+            if isinstance(o, str):
+                return False        # concrete strings of the harness vocabulary are never canonical uuid strings
+            u = a if isinstance(a, UUIDStr) else b
+            return simp(z3.Function('uuid_str', z3.IntSort(), z3.StringSort())(zint(u.v)) == zstr(o))
         if isinstance(a, Slice) and isinstance(b, Slice):
             if a.arr is None:
                 return b.arr is None
